@@ -106,24 +106,21 @@ is_special_domain (const char *start, const char *end)
         label[len] = 0;
 
         if (strncasecmp ("example", label, 8) == 0) {
-            cp = ch + 1;
-            ch = strchr (cp, '.');
-
-            if (ch == NULL)
-                len = end - cp;
-            else
-                len = ch - cp;
-
-            if (len != 3) /* there are only com, net, org */
-                return (NO);
-
             /* probably reserved example.tld */
-            memcpy (label, cp, len);
-            label[len] = 0;
-            CHECK(example, label);
+            const char *tp = ch + 1;
+            char *tch = strchr (tp, '.');
+            size_t tlen = (tch == NULL) ? (size_t) (end - tp) : (size_t) (tch - tp);
+
+            if (tlen == 3) { /* there are only com, net, org */
+                memcpy (label, tp, tlen);
+                label[tlen] = 0;
+                CHECK(example, label);
+            }
         }
     }
-    else { /* probably special or reserved */
+
+    /* the last label may be special or reserved whatever precedes it */
+    {
         /* check only the last label */
         cp = ch + 1;
         ch = strchr (cp, '.');
